@@ -160,6 +160,15 @@ def walk_pruned(scan, g: FuncInfo, loop: ast.For, R: frozenset) -> bool:
 
     idx = next((i for i, st in enumerate(loop.body) if prunes(st)), None)
     if idx is None:
+        # a pruning loop over the very list it removes from skips the element after each removed one
+        for st in loop.body:
+            if isinstance(st, ast.For) and isinstance(st.iter, ast.Name) and st.iter.id == dirs:
+                for n in ast.walk(st):
+                    if (isinstance(n, ast.Call) and isinstance(n.func, ast.Attribute) and n.func.attr in ("remove", "pop") and norm(n.func.value) == dirs) or (isinstance(n, ast.Delete) and any(isinstance(t, ast.Subscript) and norm(t.value) == dirs for t in n.targets)):
+                        note = f"`{norm(n, 50)}` inside `for {norm(st.target, 20)} in {dirs}` removes from the list being iterated: the entry after each removed one is never tested, so of two adjacent excluded sub-directories the second is still walked (iterate over a copy, or assign `{dirs}[:] = [...]`)"
+                        notes = getattr(scan, "walk_notes", None)
+                        if notes is not None and note not in notes:
+                            notes.append(note)
         return False
 
     def continues_ok(block: list) -> bool:
